@@ -784,8 +784,11 @@ struct elements_iterator_t : boost::multi::random_accessable<elements_iterator_t
 	template<typename, class> friend struct elements_iterator_t;
 	template<typename, class> friend struct elements_range_t;
 
+	// index tuple of the n-th position; a range without elements (any zero extent) has no index tuples
+	constexpr auto indices_at_(difference_type n) const -> indices_type { return (xs_.num_elements() == 0)?indices_type{}:xs_.from_linear(n); }
+
 	constexpr elements_iterator_t(pointer base, layout_type const& lyt, difference_type n)
-	: base_{base}, l_{lyt}, n_{n}, xs_{l_.extensions()}, ns_{lyt.is_empty()?indices_type{}:xs_.from_linear(n)} {}
+	: base_{base}, l_{lyt}, n_{n}, xs_{l_.extensions()}, ns_{indices_at_(n)} {}
 
  public:
 	elements_iterator_t() = default;
@@ -826,12 +829,12 @@ struct elements_iterator_t : boost::multi::random_accessable<elements_iterator_t
 
 	BOOST_MULTI_HD constexpr auto operator+=(difference_type n) -> elements_iterator_t& {
 		n_ += n;  // the linear position is the source of truth; the index tuple wraps around at end()
-		ns_ = xs_.from_linear(n_);
+		ns_ = indices_at_(n_);
 		return *this;
 	}
 	BOOST_MULTI_HD constexpr auto operator-=(difference_type n) -> elements_iterator_t& {
 		n_ -= n;
-		ns_ = xs_.from_linear(n_);
+		ns_ = indices_at_(n_);
 		return *this;
 	}
 
